@@ -71,6 +71,13 @@ class SymGraph:
         """the candidates for parents of c in the order parent_positions lists them"""
         return [p for p in (self.P if self.order == 'asc' else reversed(self.P)) if p < c]
 
+def _ref_cast(e, c, a):
+    seg = a[0]
+    while isinstance(seg, Ref) and isinstance(seg.get(), Ref): seg = seg.get()
+    return Ref([Agg([seg.get()], 'CompositeCommitIndex')], 0)
+# #[ref_cast_custom] CompositeCommitIndex::new: &dyn CommitIndexSegment -> &CompositeCommitIndex (repr(transparent) wrapper)
+REF_CAST_OVER = [(re.compile(r'CompositeCommitIndex::new$'), _ref_cast)]
+
 def CID(p): return Agg([Vec([p], 'Vec')], 'CommitId')
 def GP(p): return Agg([p], 'GlobalCommitPosition')
 def plist(v): return [x.f[0] for x in deref(v).l]
